@@ -544,6 +544,18 @@ func c15OtherBaseTypes(c *lib.Ctx, entries []fit.VerifField) {
 						c.Violation(b, "message %d field %d defined with base type %s, size %d, arch %d: Decode panicked: %s\n%s", e.Mesg, e.Num, bt.Name, sz, arch, out.Panic, out.Stack)
 						return
 					}
+					// the same with a logger and the unknown-item options: what guards the reflection
+					// accesses must not depend on them
+					_, derr2, out2 := lib.GuardedDecode(b, optionList(7, &countingLogger{}, uint64(sz)+uint64(bt.Code))...)
+					c.Eval()
+					if out2.Panicked || out2.Hang {
+						c.Violation(b, "message %d field %d defined with base type %s, size %d, arch %d: Decode with a logger and the unknown-item options panicked: %s\n%s", e.Mesg, e.Num, bt.Name, sz, arch, out2.Panic, out2.Stack)
+						return
+					}
+					if (derr == nil) != (derr2 == nil) {
+						c.Violation(b, "message %d field %d defined with base type %s, size %d: accepted without options (%v) but not with them (%v), or the reverse", e.Mesg, e.Num, bt.Name, sz, derr, derr2)
+						return
+					}
 					if derr != nil {
 						c.Count("other_base_type_definitions_rejected", 1)
 						continue
